@@ -649,3 +649,14 @@ def c14_directed_specs(corp, hash_seeds):
         for pe in (300, 3000):
             sess([dict(l) for l in three], "schedule-%d/%d" % (pi, pe), knobs={"sched": plan, "preempt_every": pe})
     return specs
+
+
+def c11_many_distinct_specs(corp, n=300):
+    """THOROUGH: one process compiles n programs with n distinct constexpr evaluations (bounded caches, eviction,
+    counters), then the first ones again"""
+    def src(i):
+        return {"": C.HDR + "@constexpr\ndef scale(x):\n    return x * 3 + 1\ndb.Setting = scale(%d)\n" % i}
+    ops = [{"entry": "K/distinct-%d" % i, "src": src(i), "options": {}, "opt_style": "obj", "src_style": "dict"} for i in range(n)]
+    ops += [dict(ops[i]) for i in (0, 1, n // 2, n - 1, 0)]
+    return [{"property": "C11", "kind": "api", "hash_seed": 0, "origin": "directed", "label": "many-distinct-constexpr",
+             "knobs": {"step_clock": False, "do_timing": False}, "shared_options": {}, "ops": ops}]
